@@ -4,17 +4,6 @@ Import ListNotations.
 From Urwid Require Import PyBase PyList ColourBase colours_gen Colours ColoursTables ColoursBits ColoursSpec.
 Open Scope Z_scope.
 
-Definition is_basic (k : kind) : bool := match k with KBasic => true | _ => false end.
-Definition is_high (k : kind) : bool := match k with KHigh => true | _ => false end.
-Definition is_true (k : kind) : bool := match k with KTrue => true | _ => false end.
-
-(* the values of the kind bits *)
-Lemma F_val ss k :
-  Z.land (F ss k) FG_BASIC_COLOR = bz (is_basic k) FG_BASIC_COLOR /\
-  Z.land (F ss k) FG_HIGH_COLOR = bz (is_high k) FG_HIGH_COLOR /\
-  Z.land (F ss k) FG_TRUE_COLOR = bz (is_true k) FG_TRUE_COLOR.
-Proof. all_ss ss; destruct k; vm_compute; repeat split; reflexivity. Qed.
-
 (* AttrSpec.colors in terms of the fields *)
 Definition colors_spec (md : mode) (k bk : kind) : Z :=
   match md with
@@ -184,7 +173,13 @@ Proof.
 Qed.
 
 (* ------------------------------------------------------------------ the constructor, inverted *)
-Definition wf_depth (D : Z) : Prop := valid_depth D = true.
+Lemma colors_spec_out md k bk : colors_spec (out_mode md k bk) k bk = colors_spec md k bk.
+Proof. destruct md, k, bk; reflexivity. Qed.
+Lemma out_mode_idem md k bk : out_mode (out_mode md k bk) k bk = out_mode md k bk.
+Proof. destruct md, k, bk; reflexivity. Qed.
+Lemma out_mode_88 md k bk :
+  (match out_mode md k bk with M88 => true | _ => false end) = (match md with M88 => true | _ => false end).
+Proof. destruct md, k, bk; reflexivity. Qed.
 
 Lemma construct_inv D fg bg v :
   Forall (wf_part (mode_of D)) fg -> wf_desc (mode_of D) bg -> attrspec_new fg bg D = ROk v ->
@@ -192,7 +187,7 @@ Lemma construct_inv D fg bg v :
   valid_depth D = true /\ attr_colors v <= D /\ build md fg bg = ROk v /\
   exists fcol ss k bn,
     fg_abs md fg None ss_empty KNone = ROk (fcol, ss, k) /\ part_color md bg = Ok (Some bn) /\
-    v = pack (marker md) (dflt fcol) (F ss k) bn (bgflag (part_kind md bg)) /\
+    v = pack (marker (out_mode md k (part_kind md bg))) (dflt fcol) (F ss k) bn (bgflag (part_kind md bg)) /\
     low24 (dflt fcol) /\ low24 bn /\ side_ok md k (dflt fcol) /\ side_ok md (part_kind md bg) bn.
 Proof.
   intros W Wb E md. rewrite attrspec_new_build in E by assumption. fold md in E.
@@ -200,8 +195,8 @@ Proof.
   destruct (build md fg bg) as [v'|] eqn:EB; [|discriminate]. cbn [rbind] in E.
   destruct (D <? attr_colors v') eqn:EC; [discriminate|]. injection E as ->.
   split; [reflexivity|]. split; [lia|]. split; [reflexivity|].
-  destruct (build_ok md fg bg v W Wb EB) as [fcol [ss [k [bn [EF [EP [EV OK]]]]]]].
-  exists fcol, ss, k, bn. destruct OK as [_ Hfn _ Hbn _].
+  destruct (build_ok md fg bg v W Wb EB) as [fcol [ss [k [bn [EF [EP [EV [Hfn Hbn]]]]]]]].
+  exists fcol, ss, k, bn.
   repeat (split; [assumption|]). split.
   - eapply (fg_abs_side md fg None ss_empty KNone); eauto. reflexivity.
   - now apply part_side_ok.
@@ -223,14 +218,34 @@ Proof.
     first [specialize (K1 eq_refl); discriminate | specialize (K2 eq_refl); discriminate].
 Qed.
 
-Theorem roundtrip D fg bg v :
-  Forall (wf_part (mode_of D)) fg -> wf_desc (mode_of D) bg -> attrspec_new fg bg D = ROk v ->
-  exists f b, foreground v = Ok f /\ background v = Ok b /\
-    Forall (wf_part (mode_of D)) (parts_of_foreground f) /\ wf_desc (mode_of D) b /\
-    attrspec_new (parts_of_foreground f) b D = ROk v.
+(* a 'default' or basic description means the same in every mode *)
+Lemma low_kind_mode_indep md md2 d k :
+  is_high k || is_true k = false -> part_kind md d = k ->
+  part_color md2 d = part_color md d /\ part_kind md2 d = k /\ (wf_desc md d -> wf_desc md2 d).
 Proof.
-  intros W Wb E. destruct (construct_inv D fg bg v W Wb E) as [VD [LE [_ [fcol [ss [k [bn [EF [EP [EV [Hfn [Hbn [S1 S2]]]]]]]]]]]]].
-  set (md := mode_of D) in *. set (bk := part_kind md bg) in *. set (fn := dflt fcol) in *.
+  intros Hk E. destruct d; cbn in E |- *; try (subst k; split; [reflexivity|split; [reflexivity|tauto]]);
+    (subst k; destruct md; cbn in Hk; discriminate).
+Qed.
+
+(* what the two describers report, and that it parses back to the same fields in the mode of the
+   declared depth and in the mode that stays in the value *)
+Lemma describe_fields D fg bg v :
+  Forall (wf_part (mode_of D)) fg -> wf_desc (mode_of D) bg -> attrspec_new fg bg D = ROk v ->
+  let md := mode_of D in
+  exists fcol ss k bn fd bd,
+    let bk := part_kind md bg in let fn := dflt fcol in let cs := colors_spec md k bk in
+    v = pack (marker (out_mode md k bk)) fn (F ss k) bn (bgflag bk) /\ low24 fn /\ low24 bn /\
+    side_ok md k fn /\ side_ok md bk bn /\ attr_colors v = cs /\
+    side_desc cs k fn = Ok fd /\ side_desc cs bk bn = Ok bd /\
+    foreground v = Ok (fd, settings_of v) /\ background v = Ok bd /\
+    settings_of v = [s_bold ss; s_italics ss; s_standout ss; s_blink ss; s_underline ss; s_strike ss] /\
+    forall md2, md2 = md \/ md2 = out_mode md k bk ->
+      wf_desc md2 fd /\ part_color md2 fd = Ok (Some fn) /\ part_kind md2 fd = k /\
+      wf_desc md2 bd /\ part_color md2 bd = Ok (Some bn) /\ part_kind md2 bd = bk.
+Proof.
+  intros W Wb E md.
+  destruct (construct_inv D fg bg v W Wb E) as [VD [LE [_ [fcol [ss [k [bn [EF [EP [EV [Hfn [Hbn [S1 S2]]]]]]]]]]]]].
+  fold md in EF, EP, EV, S1, S2. set (bk := part_kind md bg) in *. set (fn := dflt fcol) in *.
   destruct (colors_of_high md k bk fn bn S1 S2) as [C1 C2].
   assert (D1 : exists d, side_desc (colors_spec md k bk) k fn = Ok d /\ wf_desc md d /\
                          part_color md d = Ok (Some fn) /\ part_kind md d = k).
@@ -239,20 +254,91 @@ Proof.
                          part_color md d = Ok (Some bn) /\ part_kind md d = bk).
   { apply (side_roundtrip md bk k bk bn S2); [tauto|]. destruct bk; try exact I; apply C2; reflexivity. }
   destruct D1 as [fd [Efd [Wfd [Pfd Kfd]]]]. destruct D2 as [bd [Ebd [Wbd [Pbd Kbd]]]].
+  exists fcol, ss, k, bn, fd, bd. cbv zeta. fold bk fn.
+  assert (EC : attr_colors v = colors_spec md k bk).
+  { subst v. rewrite colors_pack by assumption. apply colors_spec_out. }
   assert (EFG : foreground_color v = Ok fd).
   { subst v. rewrite foreground_color_pack by assumption. unfold side_desc in Efd. unfold high_desc.
-    destruct k; exact Efd. }
+    rewrite colors_spec_out. destruct k; exact Efd. }
   assert (EBG : background v = Ok bd).
   { subst v. rewrite background_pack by assumption. unfold side_desc in Ebd. unfold high_desc.
-    destruct bk; exact Ebd. }
-  exists (fd, settings_of v), bd.
-  assert (WF : Forall (wf_part md) (parts_of_foreground (fd, settings_of v))).
-  { unfold parts_of_foreground. cbn [fst snd]. constructor; [exact Wfd|apply settings_wf]. }
-  split; [unfold foreground; now rewrite EFG|]. split; [exact EBG|]. split; [exact WF|]. split; [exact Wbd|].
-  rewrite attrspec_new_build by exact WF. fold md. rewrite VD. cbn [negb].
-  assert (EB : build md (parts_of_foreground (fd, settings_of v)) bd = ROk v).
-  { unfold build, parts_of_foreground. cbn [fst snd fg_abs]. rewrite Pfd.
-    rewrite EV at 1. rewrite settings_pack by assumption. rewrite settings_rebuild.
-    rewrite Pbd, Kfd, Kbd. cbn [dflt]. now rewrite EV. }
-  rewrite EB. cbn [rbind]. replace (D <? attr_colors v) with false by lia. reflexivity.
+    rewrite colors_spec_out. destruct bk; exact Ebd. }
+  repeat (split; [assumption|]).
+  split; [unfold foreground; now rewrite EFG|]. split; [exact EBG|].
+  split; [subst v; now apply settings_pack|].
+  intros md2 [Hm2|Hm2]; subst md2; [repeat split; assumption|].
+  destruct md eqn:Emd; cbn [out_mode]; try (repeat split; assumption).
+  destruct (is_true k || is_true bk) eqn:T; [repeat split; assumption|].
+  (* declared with 2^24 colours, no true colour used: both sides are 'default' or basic *)
+  assert (Hk : is_high k || is_true k = false).
+  { destruct k; try reflexivity; cbn in S1, T; destruct S1 as [X _]; discriminate. }
+  assert (Hbk : is_high bk || is_true bk = false).
+  { destruct bk eqn:Y; try reflexivity; cbn in S2, T; try (destruct S2 as [X _]; discriminate).
+    rewrite orb_true_r in T. discriminate. }
+  destruct (low_kind_mode_indep MTrue M256 fd k Hk Kfd) as [A1 [A2 A3]].
+  destruct (low_kind_mode_indep MTrue M256 bd bk Hbk Kbd) as [B1 [B2 B3]].
+  rewrite A1, B1. repeat split; auto.
+Qed.
+
+(* rebuilding from the reported descriptions, in either mode *)
+Lemma rebuild_in_mode D fg bg v :
+  Forall (wf_part (mode_of D)) fg -> wf_desc (mode_of D) bg -> attrspec_new fg bg D = ROk v ->
+  exists f b, foreground v = Ok f /\ background v = Ok b /\
+    forall md2, (md2 = mode_of D \/ mode_of (attr_colors v) = md2) ->
+      Forall (wf_part md2) (parts_of_foreground f) /\ wf_desc md2 b /\
+      build md2 (parts_of_foreground f) b = ROk v.
+Proof.
+  intros W Wb E.
+  destruct (describe_fields D fg bg v W Wb E) as [fcol [ss [k [bn [fd [bd H]]]]]]. cbv zeta in H.
+  destruct H as [EV [Hfn [Hbn [S1 [S2 [EC [Efd [Ebd [EF [EB [ES RB]]]]]]]]]]].
+  set (md := mode_of D) in *. set (bk := part_kind md bg) in *. set (fn := dflt fcol) in *.
+  exists (fd, settings_of v), bd. split; [exact EF|]. split; [exact EB|].
+  assert (MO : mode_of (attr_colors v) = out_mode md k bk).
+  { rewrite EC.
+    assert (K1 : is_high k || is_true k = true -> k = high_kind md)
+      by (destruct k; cbn in S1 |- *; try discriminate; intros; apply S1).
+    assert (K2 : is_high bk || is_true bk = true -> bk = high_kind md)
+      by (destruct bk; cbn in S2 |- *; try discriminate; intros; apply S2).
+    clear -K1 K2. destruct md, k, bk; cbn in K1, K2 |- *; try reflexivity;
+      first [specialize (K1 eq_refl); discriminate | specialize (K2 eq_refl); discriminate]. }
+  intros md2 Hmd2.
+  assert (Hmd2' : md2 = md \/ md2 = out_mode md k bk) by (destruct Hmd2 as [Hx|Hx]; [left; exact Hx|right; rewrite <- MO; symmetry; exact Hx]).
+  destruct (RB md2 Hmd2') as [Wfd [Pfd [Kfd [Wbd [Pbd Kbd]]]]].
+  split; [unfold parts_of_foreground; cbn [fst snd]; constructor; [exact Wfd|apply settings_wf]|].
+  split; [exact Wbd|].
+  unfold build, parts_of_foreground. cbn [fst snd fg_abs]. rewrite Pfd.
+  rewrite ES, settings_rebuild, Pbd, Kfd, Kbd. cbn [dflt].
+  replace (out_mode md2 k bk) with (out_mode md k bk); [now rewrite EV|].
+  destruct Hmd2' as [Hx|Hx]; subst md2; [reflexivity|now rewrite out_mode_idem].
+Qed.
+
+Theorem roundtrip D fg bg v :
+  Forall (wf_part (mode_of D)) fg -> wf_desc (mode_of D) bg -> attrspec_new fg bg D = ROk v ->
+  exists f b, foreground v = Ok f /\ background v = Ok b /\
+    Forall (wf_part (mode_of D)) (parts_of_foreground f) /\ wf_desc (mode_of D) b /\
+    attrspec_new (parts_of_foreground f) b D = ROk v.
+Proof.
+  intros W Wb E. destruct (rebuild_in_mode D fg bg v W Wb E) as [f [b [Ef [Eb R]]]].
+  destruct (R (mode_of D) (or_introl eq_refl)) as [Wf [Wb' EB]].
+  destruct (construct_inv D fg bg v W Wb E) as [VD [LE _]].
+  exists f, b. repeat (split; [assumption|]).
+  rewrite attrspec_new_build by assumption. rewrite VD. cbn [negb]. rewrite EB. cbn [rbind].
+  replace (D <? attr_colors v) with false by lia. reflexivity.
+Qed.
+
+(* the reported depth expresses the specification: rebuilding at attr_colors v gives v again *)
+Theorem rebuild_at_reported_depth D fg bg v :
+  Forall (wf_part (mode_of D)) fg -> wf_desc (mode_of D) bg -> attrspec_new fg bg D = ROk v ->
+  exists f b, foreground v = Ok f /\ background v = Ok b /\
+    attrspec_new (parts_of_foreground f) b (attr_colors v) = ROk v.
+Proof.
+  intros W Wb E. destruct (rebuild_in_mode D fg bg v W Wb E) as [f [b [Ef [Eb R]]]].
+  destruct (R (mode_of (attr_colors v)) (or_intror eq_refl)) as [Wf [Wb' EB]].
+  exists f, b. repeat (split; [assumption|]).
+  assert (V : valid_depth (attr_colors v) = true).
+  { destruct (describe_fields D fg bg v W Wb E) as [fcol [ss [k [bn [fd [bd H]]]]]]. cbv zeta in H.
+    destruct H as [_ [_ [_ [_ [_ [EC _]]]]]]. rewrite EC.
+    destruct (mode_of D), k, (part_kind _ bg); reflexivity. }
+  rewrite attrspec_new_build by assumption. rewrite V. cbn [negb]. rewrite EB. cbn [rbind].
+  now rewrite Z.ltb_irrefl.
 Qed.
